@@ -50,10 +50,13 @@ var c07BugMuts = map[string]bool{
 	"ref-name-mismatch": true, "ref-to-blob": true, "ref-to-tree": true, "ref-bad-name": true,
 	// root level (a new bug)
 	"first-op-not-create": true, "root-no-create-clock": true, "root-empty-pack": true,
+	// byte-level fuzzing of the pack blob: no expectation, judged by the property predicate only
+	"fuzz": false,
 }
 var c07IdentMuts = map[string]bool{
 	"none": false, "idv-not-json": true, "idv-wrong-version": true, "idv-two-entries": true, "idv-bad-entry-name": true,
 	"idv-ref-mismatch": true, "idv-empty-name": true, "idv-ctrl-char": true, "idv-tree-as-version": true, "idv-ref-to-blob": true,
+	"idv-fuzz":     false,
 	"idv-null-key": true, "idv-bad-key": true, "idv-times-string": true, "idv-no-nonce": true,
 }
 
@@ -95,6 +98,18 @@ func (c07Driver) Gen(r *Rand, tier string) []json.RawMessage {
 				res = append(res, mustJSON(c07Input{Sit: s, Mut: m, Kind: "identity", Salt: r.Intn(1000)}))
 			}
 		}
+	}
+	nf := 120
+	if tier == "thorough" {
+		nf = 6000
+	}
+	for i := 0; i < nf; i++ {
+		kind, mut := "bug", "fuzz"
+		sit := c07Sits[r.Intn(len(c07Sits))]
+		if i%4 == 3 {
+			kind, mut, sit = "identity", "idv-fuzz", []string{"absent", "equal", "ahead"}[r.Intn(3)]
+		}
+		res = append(res, mustJSON(c07Input{Sit: sit, Mut: mut, Kind: kind, Salt: r.Intn(1 << 30)}))
 	}
 	var out []json.RawMessage
 	for _, x := range res {
@@ -373,6 +388,8 @@ func (c07Driver) Run(raw json.RawMessage) Case {
 			es = entries(mkOps(comment, comment))
 		case "empty-title":
 			es = entries(mkOps(bug.NewSetTitleOp(alice, 1600000400, "", "was")))
+		case "fuzz":
+			es = entries(fuzzBytes(data, in.Salt))
 		case "json-trailing":
 			es = entries(append(append([]byte{}, data...), []byte(" trailing garbage")...))
 		case "clock-equal":
@@ -489,6 +506,10 @@ func (c07Driver) Run(raw json.RawMessage) Case {
 		case "idv-ctrl-char":
 			m["name"] = "evil\u0007name"
 			es[0].Hash = blobOf(m)
+		case "idv-fuzz":
+			d, _ := json.Marshal(m)
+			h, _ := repoB.StoreData(fuzzBytes(d, in.Salt))
+			es[0].Hash = h
 		case "idv-null-key":
 			m["pub_keys"] = []interface{}{nil}
 			es[0].Hash = blobOf(m)
@@ -657,5 +678,74 @@ func (c07Driver) Run(raw json.RawMessage) Case {
 	term := fmt.Sprintf("mkcase7 %s %s %s %s %s %s %s", coqBool(expectInvalid), st, coqBool(same), coqBool(obs.Readable), coqBool(othersOK),
 		coqBool(in.Kind == "bug" && len(obs.TipEntries) > 0), coqList(es))
 	tags := []string{"kind:" + in.Kind, "sit:" + in.Sit, "mut:" + in.Mut, "status:" + obs.Status}
-	return Case{Coq: term, Obs: obs, Tags: tags, NonTrivial: in.Mut != "none", Key: fmt.Sprintf("%s/%s/%s", in.Kind, in.Sit, in.Mut)}
+	key := fmt.Sprintf("%s/%s/%s", in.Kind, in.Sit, in.Mut)
+	if strings.HasSuffix(in.Mut, "fuzz") {
+		key += fmt.Sprintf("/%d", in.Salt)
+	}
+	return Case{Coq: term, Obs: obs, Tags: tags, NonTrivial: in.Mut != "none", Key: key}
+}
+
+// fuzzBytes applies 1-3 structure-aware byte mutations, all derived from the seed.
+func fuzzBytes(data []byte, seed int) []byte {
+	r := NewRand(uint64(seed))
+	out := append([]byte(nil), data...)
+	tokens := []string{"null", "true", "0", "-1", "1e400", "18446744073709551616", "\"\"", "[]", "{}", "[[[[[[[[[[]]]]]]]]]]", "\"\\ud800\"", "\u0000", "{\"id\":null}"}
+	for k, n := 0, 1+r.Intn(3); k < n && len(out) > 0; k++ {
+		p := r.Intn(len(out))
+		switch r.Intn(8) {
+		case 0:
+			out[p] ^= byte(1 << uint(r.Intn(8)))
+		case 1:
+			out = append(out[:p], out[p+1:]...)
+		case 2:
+			out = append(out[:p], append([]byte{byte(r.Intn(256))}, out[p:]...)...)
+		case 3:
+			out = out[:p]
+		case 4: // replace a JSON value starting at a ':' by a token of another type
+			for q := p; q < len(out); q++ {
+				if out[q] == ':' {
+					end := q + 1
+					depth := 0
+					inStr := false
+					for end < len(out) {
+						c := out[end]
+						if inStr {
+							if c == '\\' {
+								end++
+							} else if c == '"' {
+								inStr = false
+							}
+						} else if c == '"' {
+							inStr = true
+						} else if c == '{' || c == '[' {
+							depth++
+						} else if c == '}' || c == ']' {
+							if depth == 0 {
+								break
+							}
+							depth--
+						} else if c == ',' && depth == 0 {
+							break
+						}
+						end++
+					}
+					tok := tokens[r.Intn(len(tokens))]
+					out = append(append(append([]byte(nil), out[:q+1]...), []byte(tok)...), out[end:]...)
+					break
+				}
+			}
+		case 5: // duplicate a slice
+			q := p + r.Intn(len(out)-p)
+			out = append(out[:q], append(append([]byte(nil), out[p:q]...), out[q:]...)...)
+		case 6: // change the case of a key (encoding/json matches keys case-insensitively)
+			for q := p; q < len(out) && q < p+12; q++ {
+				if out[q] >= 'a' && out[q] <= 'z' {
+					out[q] -= 32
+				}
+			}
+		case 7:
+			out = append(out, []byte(tokens[r.Intn(len(tokens))])...)
+		}
+	}
+	return out
 }
